@@ -268,6 +268,35 @@ fn run_queries(f: &[u8], mode: Mode, index: fai::Index, regs: &[Reg]) -> Vec<Res
     }
 }
 
+fn fai_roundtrip(recs: &[fai::Record]) -> Result<fai::Index, String> {
+    let index = fai::Index::from(recs.to_vec());
+    let mut w = fai::io::Writer::new(Vec::new());
+    w.write_index(&index).map_err(|e| format!("write: {e}"))?;
+    let bytes = w.into_inner();
+    let back = fai::io::Reader::new(&bytes[..]).read_index().map_err(|e| format!("read: {e}"))?;
+    if back != index {
+        return Err(format!("{back:?} != {index:?}"));
+    }
+    Ok(back)
+}
+
+/// Repository over the indexed reader: `get(name)` is the whole naive sequence
+fn check_repository(f: &[u8], index: fai::Index) -> Result<(), String> {
+    let Some(naive) = naive_parse(f) else { return Ok(()) };
+    let names: Vec<Vec<u8>> = index.as_ref().iter().map(|r| r.name().to_vec()).collect();
+    let rd = fasta::io::IndexedReader::new(Cursor::new(f.to_vec()), index);
+    let repo = fasta::Repository::new(fasta::repository::adapters::IndexedReader::new(rd));
+    for (k, n) in names.iter().enumerate() {
+        for _ in 0..2 {
+            match repo.get(n) {
+                Some(Ok(seq)) if seq.as_ref().as_ref() == &naive[k].bases[..] => {}
+                other => return Err(format!("record {k}: {:?}", other.map(|r| r.map(|s| s.len())))),
+            }
+        }
+    }
+    Ok(())
+}
+
 fn fmt_results(rs: &[Result<Vec<u8>, String>]) -> String {
     rs.iter()
         .map(|r| match r {
@@ -597,13 +626,37 @@ fn run(c: &Case) -> Obs {
             let mode = parse_mode(&c.args[1]);
             let regs = parse_regions(&c.args[2]);
             let (recs, _err) = run_index(&f, mode);
-            let res = run_queries(&f, mode, fai::Index::from(recs.clone()), &regs);
+            // the index goes through its file form (fai writer + reader) before it is used
+            let index = match fai_roundtrip(&recs) {
+                Ok(ix) => ix,
+                Err(d) => return Obs::fail("-", "fai-file-roundtrip", d),
+            };
+            let res = run_queries(&f, mode, index.clone(), &regs);
+            if c.kind == "q" && mode == Mode::Cursor {
+                if let Err(e) = check_repository(&f, index) {
+                    return Obs::fail(fmt_results(&res), "fasta-repository-get", e);
+                }
+            }
             let obs = fmt_results(&res);
             // what a start beyond the length returns depends on how the source chunks the foreign
             // bytes (a '>' inside a definition line, BGZF seeks past EOF): modelled for the plain
             // in-memory source only
             let obs = if c.kind == "qb" && mode != Mode::Cursor { "-".to_string() } else { obs };
             Obs::ok(obs, regs.len() > 1).with_verdict(check_queries(&f, mode, &recs, &regs, &res))
+        }
+        // out of the property's quantifier (bare CR / '>' inside a sequence line): observation
+        // for the model only, plain in-memory source
+        "idxw" => {
+            let f = c.b(0);
+            let (recs, err) = run_index(&f, Mode::Cursor);
+            Obs { obs: fmt_index(&recs, &err), verdict: "skip".into(), nontrivial: false }
+        }
+        "qw" => {
+            let f = c.b(0);
+            let regs = parse_regions(&c.args[2]);
+            let (recs, _err) = run_index(&f, Mode::Cursor);
+            let res = run_queries(&f, Mode::Cursor, fai::Index::from(recs), &regs);
+            Obs { obs: fmt_results(&res), verdict: "skip".into(), nontrivial: false }
         }
         "wr" => run_wr(c),
         "fq" => run_fq(c),
@@ -753,7 +806,7 @@ fn render_ragged(rng: &mut Rng, recs: &[GRec]) -> Vec<u8> {
         if k == victim {
             let n = lines.len();
             let mid = if n >= 3 { rng.range(1, n as u64 - 2) as usize } else { 0 };
-            match rng.below(9) {
+            match *rng.pick(&[0u64, 1, 2, 2, 3, 4, 5, 5, 6, 7, 8]) {
                 0 => {
                     // a middle (or first) line loses bases
                     let d = rng.range(1, lines[mid].0.len() as u64) as usize;
@@ -993,6 +1046,24 @@ fn generate(rng: &mut Rng, tier: &str, w: &mut CaseWriter) {
         let f = render_ragged(rng, &recs);
         let wq = rng.chance(1, 2);
         push_file_cases(rng, w, &f, wq);
+    }
+    for _ in 0..120 * scale {
+        let recs = gen_recs(rng);
+        let mut f = render(&recs, !rng.chance(1, 5));
+        for _ in 0..rng.range(1, 3) {
+            let at = rng.below(f.len() as u64 + 1) as usize;
+            f.insert(at, *rng.pick(&[b'\r', b'\r', b'>', b'\n', b' ']));
+        }
+        w.push("idxw", vec![hex(&f), "c0".into()]);
+        if let Some(naive) = naive_parse(&f) {
+            let (mut rin, mut rbe) = (Vec::new(), Vec::new());
+            for n in naive.iter().filter(|n| !n.bases.is_empty()) {
+                let lb = n.lines.first().map(|l| l.bases as u64).unwrap_or(1);
+                gen_regions(rng, &n.name, n.bases.len() as u64, lb, &mut rin, &mut rbe, f.len() as u64);
+            }
+            rin.extend(rbe);
+            w.push("qw", vec![hex(&f), "c0".into(), fmt_regions(&rin)]);
+        }
     }
     for _ in 0..200 * scale {
         gen_wr(rng, w);
